@@ -57,7 +57,52 @@ def value_at(pins, t):
     if isinstance(t, P):
         q = poly_at(pins, t)
         return q
+    tp = text_predicate(t)
+    if tp is not None and ("text_has:" + tp) in pins:
+        return pins["text_has:" + tp]
+    if isinstance(t, App) and t.op == "truth" and len(t.args) == 1:
+        return truth_const(value_at(pins, t.args[0]))
     raise AnalysisError("E6.point", "value %r is not decided by the inputs" % (t,))
+
+
+def text_predicate(t):
+    """'s' for the term `Const(s) in Opaque(text)` (a substring test on the analysed function's text
+    argument, whose truth the caller supplies as the pin text_has:s), else None."""
+    from .terms import Opaque
+
+    if isinstance(t, App) and t.op == "in" and len(t.args) == 2:
+        a, b = t.args
+        if isinstance(a, Const) and isinstance(a.v, str) and isinstance(b, Opaque) and b.tag == "text":
+            return a.v
+    return None
+
+
+def text_predicates_in(roots):
+    """All substring tests on the text argument that occur in the given terms."""
+    from .terms import Opaque
+
+    out = []
+    seen = set()
+
+    def rec(x):
+        if id(x) in seen or not isinstance(x, Term):
+            return
+        seen.add(id(x))
+        tp = text_predicate(x)
+        if tp is not None and tp not in out:
+            out.append(tp)
+        if isinstance(x, (App, BoolOp)):
+            for a in x.args:
+                rec(a)
+        elif isinstance(x, Cmp):
+            rec(x.poly)
+        elif isinstance(x, P):
+            for a in x.atoms():
+                rec(a)
+
+    for r in roots:
+        rec(r)
+    return out
 
 
 def poly_at(pins, p):
